@@ -236,6 +236,14 @@ def run_case(case):
                                                        "far"])))
             how, k = h.choose_index(x_new)
             fv, cub, ceq = h.pb(x_new)
+            if rng.random() < 0.12:
+                # the new values equal the models' predictions exactly: the
+                # correction is zero, the function must not change (only the
+                # representation: implicit -> explicit curvature of point k)
+                fv = float(h.models.fun(x_new))
+                cub = np.array(h.models.cub(x_new), dtype=float)
+                ceq = np.array(h.models.ceq(x_new), dtype=float)
+                kind = kind + "+exact_prediction"
             vals_new = [fv] + list(cub) + list(ceq)
             before = [exact.model_of(q, itp.xpt)
                       for _, q, _ in all_models(h.models)]
